@@ -67,7 +67,7 @@ def expected(needs, defs, strs_need, strs_def, versym, i, has_needs, has_defs):
 
 def gen(rng, tier):
     cases = []
-    n = 900 if tier == "quick" else 25000
+    n = 900 if tier == "quick" else 8000
     for k in range(n):
         spec = rng.choice(SPECS)
         little = spec_little(spec)
